@@ -145,6 +145,10 @@ def cp_als(  # noqa: PLR0912,PLR0913,PLR0915
         optdims = np.arange(N)
     else:
         optdims = parse_one_d(optdims)
+        if len(set(optdims)) != len(optdims) or not all(
+            0 <= d < N for d in optdims
+        ):
+            assert False, "optdims must list distinct modes in range(tensor.ndims)"
 
     # Error checking
     assert rank > 0, "Number of components requested must be positive"
